@@ -117,6 +117,9 @@ func normaliseDeferSpill(f *ssa.Function) int {
 		for i, a := range allocs {
 			if a != nil {
 				ret.Results[i] = stored[a]
+				if refs := stored[a].Referrers(); refs != nil {
+					*refs = append(*refs, ret) // the value is now an operand of the return
+				}
 			}
 		}
 		n++
